@@ -74,6 +74,13 @@ func (g *Gen) fmtTime(t time.Time) string {
 	return t.Format(time.RFC3339Nano)
 }
 
+func (g *Gen) pickDiscount() string {
+	if g.chance(0.03) {
+		return pickStr(g, []string{"10.5", "1.5", "2.25", "100.1"}) // not below 1: the schema must refuse it
+	}
+	return pickStr(g, discountPool)
+}
+
 func (g *Gen) genPricing() string {
 	price := pickStr(g, []string{"0stake", "0.5stake", "1stake", "1stake", "2stake", "3stake", "10stake", "10stake", "7stake", "1000stake", "1.9stake"})
 	if g.stretch && g.chance(0.2) && g.x.cur.Params.MinDepositMultiple <= 10 {
@@ -102,7 +109,7 @@ func (g *Gen) genPricing() string {
 			end := start + dur
 			st := g.fmtTime(g.x.genesis.Add(time.Duration(start)))
 			et := g.fmtTime(g.x.genesis.Add(time.Duration(end)))
-			ws = append(ws, fmt.Sprintf(`{"start_time":"%s","end_time":"%s","discount":"%s"}`, st, et, pickStr(g, discountPool)))
+			ws = append(ws, fmt.Sprintf(`{"start_time":"%s","end_time":"%s","discount":"%s"}`, st, et, g.pickDiscount()))
 			g.addAnchor(start)
 			g.addAnchor(end)
 			start = end
@@ -126,7 +133,7 @@ func (g *Gen) genPricing() string {
 		v := uint64(1 + g.pick(2))
 		var vs []string
 		for i := 0; i < n; i++ {
-			vs = append(vs, fmt.Sprintf(`{"volume":%d,"discount":"%s"}`, v, pickStr(g, discountPool)))
+			vs = append(vs, fmt.Sprintf(`{"volume":%d,"discount":"%s"}`, v, g.pickDiscount()))
 			if !g.chance(0.1) { // rarely: two promotions with the same threshold (legal)
 				v += uint64(1 + g.pick(3))
 			}
@@ -250,7 +257,13 @@ func (g *Gen) actorsAct() {
 func (g *Gen) multiMsgAct() {
 	svcs := g.definedSvcs()
 	binds := g.allBindings()
-	switch g.pick(5) {
+	switch g.pick(6) {
+	case 5:
+		// a definition followed by a message that fails: the definition must be gone again
+		o := pickInt(g, g.owners)
+		name := pickStr(g, g.svcNames)
+		g.submit(g.tx(o, MsgOp{T: "define", Svc: name, Desc: "d2", Tags: []string{"t"}, Schemas: goodSchemas},
+			MsgOp{T: "bind", Svc: name, Prov: acctRef(o), Deposit: "1stake", Pricing: `{"price":"1000000stake"}`, QoS: 1, Options: "{}"}), 0)
 	case 0:
 		if len(svcs) > 0 && len(binds) > 0 {
 			c := pickInt(g, g.consumers)
@@ -954,6 +967,9 @@ func (g *Gen) moduleAct() {
 	}
 	if g.chance(0.1) {
 		m.Super = true
+	}
+	if g.chance(0.06) {
+		m.Module = pickStr(g, []string{"halfresp", "halfstate", "nosuchmodule"}) // must be refused: not both callbacks registered
 	}
 	g.submit(Op{K: "mod", Mod: m}, 0)
 	if m.Paused {
